@@ -21,12 +21,12 @@
    satisfies every foreign key and NOT NULL constraint and rows the flush does not write keep their
    values (the hypothesis of the property); [managed] = every foreign key reference that
    matters is handled by an active relationship whose get_all_pending list links the two rows, EXCEPT
-   the two regions that are the defects refuted below. *)
+   the regions refuted below. *)
 From Coq Require Import List NArith Bool Permutation Sorted.
 Import ListNotations.
 From SAV.util Require Import Topo Cycles TopoRun TopoProofs TopoCycle TopoExtra CyclesSound CyclesComplete CyclesExact.
 From SAV.orm Require Import FlushOrder FlushOrderSpec FlushOrderBase FlushOrderSort FlushOrderCover FlushOrderNeeds
-  FlushOrderCovered FlushOrderExec FlushOrderMain FlushOrderRefuted FlushOrderTotal FlushOrderCyc FlushOrderFinal.
+  FlushOrderCovered FlushOrderExec FlushOrderMain FlushOrderRefuted FlushOrderTotal FlushOrderCyc FlushOrderFinal FlushOrderLate.
 
 (* ------------------------------------------------------------------ the property (guarded) *)
 (* ANY object graph (any number of mappers and relationships of the three kinds, with or without
@@ -68,15 +68,25 @@ Theorem c31_needs_suffice : forall g, wf g = true -> consistent g = true ->
 Proof. exact exec_ok. Qed.
 Print Assumptions c31_needs_suffice.
 
-(* ------------------------------------------------------------------ the two defects *)
+(* ------------------------------------------------------------------ the defects *)
 (* without [managed] the claim is false.  1: mappers A, B that depend on each other through two
-   many-to-one relationships; a1.b = None; delete(b1): per_state_dependencies of _ManyToOneDP registers
-   only (after_save, save_parent) for a child that is being deleted, the per-mapper edge (parent_saves,
-   child_deletes) is dropped by the break-up: DELETE b1 is in the first layer, UPDATE a1 in the second.
-   Every other hypothesis holds, the plan exists, the sequence is rejected, another order is accepted *)
-Theorem c31_m2o_unset_delete_across_cycle_refuted : refuted g_m2o tr_m2o.
-Proof. exact m2o_unset_delete_refuted. Qed.
-Print Assumptions c31_m2o_unset_delete_across_cycle_refuted.
+   many-to-one relationships; a1.b = None; delete(b1).  When the old target b1 is LOADED the per-state edge
+   (save_parent, child_action) registered since a8ba61d orders the UPDATE before the DELETE: the case is inside
+   [managed] now, all hypotheses hold and the dependency is in the final set *)
+Example c31_m2o_unset_delete_repaired : exists cy layers,
+  wf g_m2o = true /\ consistent g_m2o = true /\ cycles std_tables g_m2o = Some cy /\ managed g_m2o cy = true /\
+  plan std_tables g_m2o = Layers layers /\ linearizes layers g_m2o cy [ESave 0; EDel 1]%N /\
+  exec (g_notnull g_m2o) (db0 g_m2o) (map (stmt_of g_m2o) [ESave 0; EDel 1]%N) <> None /\
+  In (code (SaveSt 0), code (DelSt 1)) (cedges (final_edges std_tables g_m2o cy)).
+Proof. exact m2o_unset_delete_repaired. Qed.
+
+(* when a1.b was expired / never loaded at the time it is reset, the old target is not in get_all_pending, the
+   unit of work does not know it and (the mapper-level edge being dropped by the break-up) DELETE b1 is in the
+   first layer, UPDATE a1 in the second.  Every other hypothesis holds, the plan exists, the sequence is
+   rejected, another order is accepted *)
+Theorem c31_m2o_unset_delete_unloaded_refuted : refuted g_m2o_unloaded tr_m2o.
+Proof. exact m2o_unset_delete_unloaded_refuted. Qed.
+Print Assumptions c31_m2o_unset_delete_unloaded_refuted.
 
 (* 2: one-to-many with post_update, the parent is deleted and the child survives: the UPDATE that sets
    the fk to NULL is emitted by PostUpdateAll(child, isdelete=False), which nothing orders before
@@ -98,6 +108,20 @@ Print Assumptions c31_cycle_set_facts.
 Theorem c31_assertion_never_fires : forall g, wf g = true -> plan std_tables g <> PAssert.
 Proof. exact plan_never_asserts. Qed.
 Print Assumptions c31_assertion_never_fires.
+
+(* no dependency of the final set leads from a delete record back to a save record: the records reachable
+   from a delete are deletes, post_update UPDATEs of surviving rows and the save-processors of post_update
+   one-to-many relationships ([late]).  So a save -> delete dependency - in particular the
+   (save_parent, child_action) edge of the repair - lies on no cycle and cannot cause a CircularDependencyError *)
+Theorem c31_no_dependency_from_delete_to_save : forall g cy, NoDup (map d_id (g_deps g)) ->
+  forall a b, In (a, b) (final_edges std_tables g cy) -> late g a = true -> late g b = true.
+Proof. exact final_edges_late. Qed.
+Print Assumptions c31_no_dependency_from_delete_to_save.
+
+Theorem c31_save_to_delete_edge_on_no_cycle : forall g cy, NoDup (map d_id (g_deps g)) ->
+  forall a b, late g a = false -> late g b = true -> ~ freach g cy b a.
+Proof. exact save_to_delete_edge_on_no_cycle. Qed.
+Print Assumptions c31_save_to_delete_edge_on_no_cycle.
 
 (* ------------------------------------------------------------------ the other outcomes *)
 Theorem c31_find_cycles_exact : forall T g,
